@@ -676,5 +676,18 @@ func TestReplay(t *testing.T) {
 			}
 			return check(&h)
 		},
+		"script_expect": func(raw json.RawMessage) *ev.Failure {
+			var c struct {
+				Src  string `json:"src"`
+				Want string `json:"want"`
+			}
+			if err := json.Unmarshal(raw, &c); err != nil {
+				return &ev.Failure{Kind: "script_expect", Case: string(raw), Msg: "bad replay: " + err.Error()}
+			}
+			if res := goat.EvalOnce(c.Src); res.Failed() || res.Stdout != c.Want {
+				return &ev.Failure{Kind: "script_expect", Case: c, Msg: fmt.Sprintf("goatlang printed %q %s, Go prints %q\n--- script\n%s", res.Stdout, res.ErrString(), c.Want, c.Src)}
+			}
+			return nil
+		},
 	})
 }
